@@ -12,6 +12,7 @@
       prints the rational core only; `props/c06.py` applies the glue with mpmath (50 digits).
 -/
 import LpModel.Basic
+import LpModel.C06.Constants
 namespace Lp.C06
 
 inductive Err where
@@ -49,7 +50,7 @@ def extend : Nat → Tbl → Tbl
 
 /-- `Factorial(n)` : result and the table afterwards. -/
 def factorial (t : Tbl) (n : Nat) : Except Err Rat × Tbl :=
-  if n > 170 then (.error .diag, t)
+  if n > K.factMax then (.error .diag, t)
   else if n < t.length then (.ok (t.getD n 0), t)
   else
     let t' := extend (n + 1 - t.length) t
@@ -108,15 +109,13 @@ def binomialFactorial (t : Tbl) (n k : Int) : Except Err Rat × Tbl :=
 
 /-! ## GammaLn: Lanczos -/
 
-def cof : List Rat :=
-  [57.1562356658629235, -59.5979603554754912, 14.1360979747417471, -0.491913816097620199,
-   0.339946499848118887e-4, 0.465236289270485756e-4, -0.983744753048795646e-4,
-   0.158088703224912494e-3, -0.210264441724104883e-3, 0.217439618115212643e-3,
-   -0.164318106536763890e-3, 0.844182239838527433e-4, -0.261908384015814087e-4,
-   0.368991826595316234e-5]
+/-- the numeric literals of `GammaLn`, `GammaQ`, `GammaQint`, `Inv_GammaP` and the bound of `Factorial` are those of the
+    current source: `LpModel/C06/Constants.lean` (namespace `K`) is regenerated from src/Special_Functions.cpp before every
+    build (translators/constants.py, DESIGN.md §4.5) -/
+def cof : List Rat := K.cof.take K.lanczosTerms
 
-def lanczos0 : Rat := 0.999999999999997092
-def sqrt2pi : Rat := 2.5066282746310005
+def lanczos0 : Rat := K.lanczos0
+def sqrt2pi : Rat := K.sqrt2pi
 
 /-- `for j<14: sum += cof[j] / ++y` starting from `y = x` -/
 def lanczosSum (x : Rat) : Rat :=
@@ -124,13 +123,13 @@ def lanczosSum (x : Rat) : Rat :=
 
 /-- the value `GammaLn` returns for `x > 0`, given the Lanczos sum `s` -/
 def gammaLnGlue (T : Transc) (x s : Rat) : Rat :=
-  let tmp := x + 671 / 128
-  ((x + 1 / 2) * T.log tmp - tmp) + (T.log (sqrt2pi * s) - T.log x)
+  let tmp := x + K.tmpNum / K.tmpDen
+  ((x + K.lnHalf) * T.log tmp - tmp) + (T.log (sqrt2pi * s) - T.log x)
 
 /-- the form before `fix:` 61f965b: `log(c * sum / x)` (the quotient overflowed in double for `x < 4.6e-307`) -/
 def gammaLnGlueQuot (T : Transc) (x s : Rat) : Rat :=
-  let tmp := x + 671 / 128
-  ((x + 1 / 2) * T.log tmp - tmp) + T.log (sqrt2pi * s / x)
+  let tmp := x + K.tmpNum / K.tmpDen
+  ((x + K.lnHalf) * T.log tmp - tmp) + T.log (sqrt2pi * s / x)
 
 def gammaLn (T : Transc) (x : Rat) : Except Err Rat :=
   if x ≤ 0 then .error .diag else .ok (gammaLnGlue T x (lanczosSum x))
@@ -243,9 +242,9 @@ inductive QintBranch where
 
 /-- `tMin`, `tMax` and the branch, given `sq = sqrt(a)` -/
 def qintBranch (sq x a : Rat) : QintBranch × Rat × Rat :=
-  let tPeak := a - 1
-  let tMin := rmax 0 (tPeak - 13 * sq)      -- N = 13 after `fix:` 3e583ff
-  let tMax := tPeak + 13 * sq
+  let tPeak := a - K.qintPeak
+  let tMin := rmax 0 (tPeak - K.qintN * sq)      -- N = 13 after `fix:` 3e583ff
+  let tMax := tPeak + K.qintN * sq
   (if x > tMax then .above else if x < tMin then .below else .integrate, tMin, tMax)
 
 /-- the panel loop (after `fix:` f69671d): `t_left = tMin; while(t_left < x) { t_right = min(x, t_left + sqrt(a));
@@ -280,8 +279,8 @@ inductive Branch where
 def gammaQBranch (x a : Rat) : Except Err Branch :=
   if x < 0 ∨ a ≤ 0 then .error .diag
   else if x = 0 then .ok .zero
-  else if a > 100 then .ok .quad
-  else if x < a + 1 then .ok .series
+  else if a > K.aMax then .ok .quad
+  else if x < a + K.seriesSwitch then .ok .series
   else .ok .cf
 
 /-- the three evaluators GammaQ dispatches to -/
@@ -337,11 +336,11 @@ def invGuess (T : Transc) (p a : Rat) : Rat :=
   if a > 1 then
     let pp := if p < 1 / 2 then p else 1 - p
     let t := T.sqrt (-2 * T.log pp)
-    let x := (2.30753 + t * 0.27061) / (1 + t * (0.99229 + t * 0.04481)) - t
+    let x := (K.invG1a + t * K.invG1b) / (1 + t * (K.invG1c + t * K.invG1d)) - t
     let x := if p < 1 / 2 then -x else x
-    rmax (1 / 1000) (a * T.pow (1 - 1 / (9 * a) - x / (3 * T.sqrt a)) 3)
+    rmax K.invG1floor (a * T.pow (1 - 1 / (K.invG1nine * a) - x / (K.invG1three * T.sqrt a)) K.invG1cube)
   else
-    let t := 1 - a * (0.253 + a * 0.12)
+    let t := 1 - a * (K.invG2a + a * K.invG2b)
     if p < t then T.pow (p / t) (1 / a) else 1 - T.log (1 - (p - t) / (1 - t))
 
 /-- the density `t` computed at the head of a pass of the Halley loop -/
@@ -355,12 +354,12 @@ def halleyDensity (T : Transc) (a gln x : Rat) : Rat :=
 def halleyStep (px p a t : Rat) (x : Rat) : Rat × Rat :=
   let err := px - p
   let u := err / t
-  let t := u / (1 - 1 / 2 * rmin 1 (u * ((a - 1) / x - 1)))
+  let t := u / (1 - K.halleyHalf * rmin K.halleyCap (u * ((a - 1) / x - 1)))
   let x1 := x - t
-  let x1 := if x1 ≤ 0 then 1 / 2 * (x1 + t) else x1
+  let x1 := if x1 ≤ 0 then K.halleyBack * (x1 + t) else x1
   (x1, t)
 
-/-- `for(i<12)`: `P` is the library's own `GammaP`; after `fix:` 3ba3162 the loop stops when the
+/-- `for(i<12)` (`K.invIter`): `P` is the library's own `GammaP`; after `fix:` 3ba3162 the loop stops when the
     density underflows (`if(t == 0.0) break;`) -/
 def halley (T : Transc) (P : Rat → Rat → Except Err Rat) (p a gln : Rat) : Nat → Rat → Except Err Rat
   | 0, x => .ok x
@@ -374,7 +373,7 @@ def halley (T : Transc) (P : Rat → Rat → Except Err Rat) (p a gln : Rat) : N
         if t = 0 then .ok x
         else
           let (x1, t) := halleyStep px p a t x
-          if rabs t < 1.0e-8 * x1 then .ok x1 else halley T P p a gln f x1
+          if rabs t < K.invEps * x1 then .ok x1 else halley T P p a gln f x1
 
 inductive InvBranch where
   | top | bottom | iterate
@@ -390,12 +389,12 @@ def invBranch (p a : Rat) : Except Err InvBranch :=
 def invGammaP (T : Transc) (P : Rat → Rat → Except Err Rat) (p a : Rat) : Except Err Rat :=
   match invBranch p a with
   | .error e => .error e
-  | .ok .top => .ok (rmax 100 (a + 100 * T.sqrt a))
+  | .ok .top => .ok (rmax K.invTopFloor (a + K.invTopWidth * T.sqrt a))
   | .ok .bottom => .ok 0
   | .ok .iterate =>
     match gammaLn T a with
     | .error e => .error e
-    | .ok gln => halley T P p a gln 12 (invGuess T p a)
+    | .ok gln => halley T P p a gln K.invIter (invGuess T p a)
 
 def invGammaQ (T : Transc) (P : Rat → Rat → Except Err Rat) (q a : Rat) : Except Err Rat :=
   if q < 0 ∨ q > 1 then .error .diag             -- `fix:` d65f15f: tested on q itself (1 - q rounds)
